@@ -259,6 +259,7 @@ def run(db, cx):
                   "the wrong intersection/safety algorithm")
 
     frame_agreement(db, cx, meths)
+    frame_carry(db, cx, meths)
 
 
 # ------------------------------------------------------------ 6. frame agreement
@@ -432,3 +433,124 @@ def frame_agreement(db, cx, meths):
                           "outside decision of set_dir is then wrong whenever a daughter below "
                           "the surface is placed with a rotation")
     cx.floor("tracker calls selected by a level's universe id", keyed, 4)
+
+
+def frame_carry(db, cx, meths):
+    """C03.6 (carried vectors): a position / direction / displacement that is carried down the
+    levels - written at level `lev`, then sent through the placement transform of that level's
+    daughter - is in frame `lev` only if the loop starts at level 0 (where the vector was
+    formed), uses it before it is transformed, transforms it with the daughter of the same
+    level, and writes the deepest level after the loop."""
+    import re as _re2
+    from cfg import loops_of
+    n = 0
+    for f in meths:
+        lam_by_loc = {l["loc"]: l for (_b, _i, l) in f.events("lambda")}
+        holders = {}
+        for (_b, _i, d) in f.events("def"):
+            m = _re2.search(r"\(lambda at [^:]*:(\d+):(\d+)\)", d.get("ty", ""))
+            if m and d.get("kind") == "decl":
+                for loc, l in lam_by_loc.items():
+                    if loc.endswith(":%s:%s" % (m.group(1), m.group(2))):
+                        holders[d["var"]] = l
+        loops = loops_of(f)
+        for (b, i, ev) in f.calls(C + "TransformVisitor::operator()"):
+            a = ev.get("args", [])
+            if len(a) != 2 or not a[0].get("path") or a[0]["path"]["root"][2:] not in holders:
+                continue
+            lam = holders[a[0]["path"]["root"][2:]]
+            body_calls = [e2["callee"] for g in db.get(lam.get("callee", "")) for (_x, _y, e2) in g.events("call")]
+            if not any(c.endswith("::transform_down") or c.endswith("::rotate_down") for c in body_calls):
+                continue
+            carried = [c["n"] for c in lam.get("captures", []) if c.get("byref")]
+            if len(carried) != 1:
+                continue
+            v = carried[0]
+            inl = [(h, body) for (h, body) in loops if b in body]
+            if not inl:
+                continue
+            h, body = min(inl, key=lambda x: len(x[1]))
+            n += 1
+            problems = []
+            # loop variable and its range
+            lev = None
+            rng = None
+            for bb in body:
+                for e2 in f.blocks[bb]["ev"]:
+                    if e2["e"] == "def" and e2.get("kind") == "decl" and (e2.get("rhs") or "").startswith("* __begin"):
+                        lev = e2["var"]
+                        beg = e2["refs"][0]
+                        for (_x, _y, d2) in f.events("def"):
+                            if d2.get("var") == beg and d2.get("refs"):
+                                for (_x2, _y2, d3) in f.events("def"):
+                                    if d3.get("var") == d2["refs"][0]:
+                                        rng = d3
+            if lev is None or rng is None:
+                n -= 1
+                continue        # not the range-for-over-levels idiom (initialisation / crossing walks)
+            else:
+                t = _norm(rng.get("rhs"))
+                m = _re2.match(r"^range\((.*)\)$", t)
+                inner = m.group(1) if m else ""
+                depth = 0
+                top_commas = 0
+                for ch in inner:
+                    depth += ch in "({<"
+                    depth -= ch in ")}>"
+                    top_commas += (ch == "," and depth == 0)
+                if not m:
+                    problems.append("loop range `%s` is not range(...)" % t)
+                elif top_commas and not _re2.match(r"^(celeritas::)?LevelId\{0\},", inner):
+                    problems.append("the loop over levels starts at `%s`, but `%s` is formed at level 0"
+                                    % (inner.split(",")[0], v))
+            # the level's lsa, use-before-transform, same-level daughter
+            lsas = [d2["var"] for bb in body for d2 in f.blocks[bb]["ev"]
+                    if d2["e"] == "def" and d2.get("kind") == "decl" and lev is not None
+                    and OTV + "make_lsa" in d2.get("calls", []) and lev in d2.get("refs", [])]
+            if lev is not None and not (set(lsas) & set(a[1].get("refs", []))):
+                problems.append("the transform is not the placement of this level's daughter (`%s`)" % a[1].get("t"))
+            uses = []
+            for bb in body:
+                for k2, e2 in enumerate(f.blocks[bb]["ev"]):
+                    p2 = e2.get("path") or {}
+                    if e2["e"] == "write" and p2.get("root", "")[2:] in lsas and v in e2.get("refs", []):
+                        uses.append((bb, k2))
+                    if e2["e"] == "call" and e2["callee"] == C + "axpy":
+                        ar = e2.get("args", [])
+                        if any(v in x.get("refs", []) for x in ar) and any(
+                                (x.get("path") or {}).get("root", "")[2:] in lsas for x in ar):
+                            uses.append((bb, k2))
+            if not uses:
+                problems.append("`%s` is not written to this level's state inside the loop" % v)
+            elif not any(f.dominates(u, (b, i)) for u in uses):
+                problems.append("`%s` is transformed before it is used at this level" % v)
+            # final (deepest) level after the loop
+            final = False
+            for (bb, k2, e2) in f.events():
+                if bb in body:
+                    continue
+                p2 = e2.get("path") or {}
+                refs_v = v in e2.get("refs", []) or any(v in x.get("refs", []) for x in e2.get("args", []))
+                if not refs_v:
+                    continue
+                root = p2.get("root", "")
+                deepest_local = [d2["var"] for (_x, _y, d2) in f.events("def") if d2.get("kind") == "decl"
+                                 and OTV + "make_lsa" in d2.get("calls", []) and not local_refs(d2.get("refs", []))]
+                if e2["e"] == "write" and (root[2:] in deepest_local or
+                                           (root == "this" and p2.get("chain") and
+                                            p2["chain"][0] == "m:" + OTV + "make_lsa")):
+                    final = True
+                if e2["e"] == "call" and e2["callee"] == C + "axpy" and any(
+                        (x.get("path") or {}).get("root", "")[2:] in deepest_local for x in e2.get("args", [])):
+                    final = True
+            if not final:
+                problems.append("the deepest level is not written from `%s` after the loop" % v)
+            cx.ob("C03.6-frame-agreement", "%s: `%s` carried down the levels is used in the frame of each "
+                  "level [@%s]" % (f.name.split("::")[-1] + f.sig.split(")")[0] + ")", v,
+                                   short(ev["loc"]).split(":")[-1]), not problems,
+                  "; ".join(problems) or "loop from level 0: use at level lev, then transform through "
+                  "lev's daughter; deepest level after the loop", short(ev["loc"]),
+                  why="a vector that is one placement transform behind (or ahead of) the level it is "
+                      "written to puts the daughter-level coordinates at a ghost point: distances to "
+                      "the daughter's boundaries are wrong by the size of the move")
+    cx.floor("carried-vector level loops", n, 2)
